@@ -183,6 +183,20 @@ def gen_ex(rng, uni, ev, d, uses, nvar, top=False, cmp_ok=False, arith2=False, f
     return f"({a}{op}{b})" if op in "+-*" else f"({a} {op} {b})", ["bin", op, sa, sb]
 
 
+def gen_boolex(rng, uni, ev, d, uses, nvar):
+    """Event-level boolean: a comparison of event-level expressions, or `and` / `or` of two booleans (the second operand's
+    code is emitted inside `if (v)` / `if (!v)`: it is not run when the first decides)."""
+    if d <= 0 or rng.random() < 0.45:
+        a, sa = gen_ex(rng, uni, ev, rng.choice([0, 0, 1]), uses, nvar, top=True, arith2=True)
+        b, sb = gen_ex(rng, uni, ev, 0, uses, nvar, arith2=True)
+        op = rng.choice(["<", "<=", ">", ">=", "==", "!="])
+        return f"({a} {op} {b})", ["bin", op, sa, sb]
+    word = rng.choice(["and", "or"])
+    a, sa = gen_boolex(rng, uni, ev, d - 1, uses, nvar)
+    b, sb = gen_boolex(rng, uni, ev, d - 1, uses, nvar)
+    return f"({a} {word} {b})", [word, sa, sb]
+
+
 def gen(rng: random.Random, uni: qgen.Universe, depth: int):
     """-> (query source, ex sexp, uses)"""
     uses: List[Tuple[str, str]] = []
@@ -251,7 +265,10 @@ def gen_row(rng: random.Random, uni: qgen.Universe, depth: int):
     for _ in range(n):
         k = rng.random()
         if k < 0.42:
-            s, sx = gen_ex(rng, uni, "e", depth, uses, nvar, top=True, cmp_ok=True, arith2=True, funs=True)
+            if rng.random() < 0.25:
+                s, sx = gen_boolex(rng, uni, "e", rng.choice([1, 1, 2]), uses, nvar)
+            else:
+                s, sx = gen_ex(rng, uni, "e", depth, uses, nvar, top=True, cmp_ok=True, arith2=True, funs=True)
             if s.startswith("(") and s.endswith(")") and sx[0] == "bin":
                 pass
             cols.append((s, ["scalar", sx]))
@@ -305,10 +322,14 @@ def gen_query_f1(rng: random.Random, uni: qgen.Universe, depth: int):
     if rng.random() < 0.55:
         # the condition is a comparison between event-level expressions (the implementation refuses a filter
         # that is not boolean-typed)
-        a, sa = gen_ex(rng, uni, "e", rng.choice([0, 1, 1]), uses, nvar, top=True, arith2=True)
-        b, sb = gen_ex(rng, uni, "e", 0, uses, nvar, arith2=True)
-        op = rng.choice(["<", "<=", ">", ">=", "==", "!="])
-        cs, cx = f"{a} {op} {b}", ["bin", op, sa, sb]
+        if rng.random() < 0.35:
+            cs, cx = gen_boolex(rng, uni, "e", rng.choice([1, 1, 2]), uses, nvar)
+            cs = cs[1:-1]
+        else:
+            a, sa = gen_ex(rng, uni, "e", rng.choice([0, 1, 1]), uses, nvar, top=True, arith2=True)
+            b, sb = gen_ex(rng, uni, "e", 0, uses, nvar, arith2=True)
+            op = rng.choice(["<", "<=", ">", ">=", "==", "!="])
+            cs, cx = f"{a} {op} {b}", ["bin", op, sa, sb]
         src += f".Where(lambda e: {cs})"
         flt = [cx]
     if rng.random() < 0.5:
